@@ -273,6 +273,12 @@ func flattenLeanFindings(c *Case, v any) []Finding {
 			}
 		}
 	}
+	if !o.Expand && want("C08") {
+		// the output must be a normal form of the phase model: on those, the pipeline is proved to be the identity
+		if nf, ok := get(v, "isNF").(bool); ok && !nf {
+			fs = append(fs, Finding{Kind: "property", Detail: fmt.Sprintf("the output of Flatten (%s) is not a normal form (Flatten.isNF): a second Flatten has something left to do", o), Signature: sig("not-normal-form")})
+		}
+	}
 	if o.Expand && want("C05") {
 		if nl, _ := get(v, "nonLocal").([]any); len(nl) > 0 {
 			fs = append(fs, Finding{Kind: "property", Detail: fmt.Sprintf("after Flatten (%s) a remaining $ref does not target an existing local definition: %s", o, truncate(canonStr(nl), 300)), Signature: sig("expand-nonlocal-ref")})
